@@ -139,3 +139,133 @@ Example c06_example :
   observe (run s0 ops) (OCmp CGt 5%Z) = VRA [1; 1; 0; 1; 1; 0; 0; 0]%Z [[1; 1]; [0; 1]; [1]; [0; 0; 0]]%Z [2; 2; 1; 3].
 Proof. vm_compute. repeat split; reflexivity. Qed.
 Print Assumptions c06_example.
+
+(* ================================================================== round 2: the write path regenerated from the source
+   translator/tr_ragged_ops.py walks the CURRENT enspara/ra/ra.py and emits Gen/RaOpsGen.v: for each index form of
+   __setitem__ the statements that touch the object, the append branches, the constructor's slot sources per input
+   class, the operator calls, the starts / size definitions in effect.  Model/RaggedOpsGen.v gives each emitted
+   statement the meaning "assign exactly that slot"; the theorems below tie the result to Model/RaggedOps.v. *)
+From EV Require Import RaBase RaGen RaOpsBase RaOpsGen RaggedOpsGen RaOpsGenProofs.
+Open Scope nat_scope.
+
+(* Every writer re-synchronises: each of the 11 branches of the current __setitem__ ends with both
+   representations current (a branch that writes _data and skips the rebuild of _array, or the reverse,
+   has no flag: skipped_rebuild_has_no_flag). *)
+Theorem c06_gen_every_setitem_branch_resyncs : forall k : ikind, resync gen_setitem_path k = true.
+Proof. exact gen_every_branch_resyncs. Qed.
+Print Assumptions c06_gen_every_setitem_branch_resyncs.
+
+(* ... and the flag means what it says, for ANY table of branches: flagged branches keep the slots coherent. *)
+Theorem c06_gen_resync_flag_is_sound : forall (paths : ikind -> list weff) o s s',
+  Coh s -> resync paths (kind_of o) = true -> run_setitem paths o s = Ok s' -> Coh s'.
+Proof. exact resync_sound. Qed.
+Print Assumptions c06_gen_resync_flag_is_sound.
+
+(* The dispatch of the current source: a[int] / a[slice] / a[list] / a[ndarray] write (a copy of) the row view and
+   re-run the constructor; a[int, slice] writes the row view in place and re-runs the constructor; every other
+   tuple form writes the flat data and rebuilds the row view; a mask is turned into pairs by where(). *)
+Theorem c06_gen_setitem_dispatch :
+  (forall k, In k [KInt; KSlice; KList; KArr] -> gen_setitem_path k = [WRowCopy; WCtorCopy]) /\
+  gen_setitem_path KIntSl = [WRowInPlace; WCtorView] /\
+  (forall k, In k [KSlSl; KSlInt; KSlList; KListSl; KPair] -> gen_setitem_path k = [WFlat; WRebuild]) /\
+  gen_setitem_path KMask = [WWhere].
+Proof. exact gen_dispatch. Qed.
+Print Assumptions c06_gen_setitem_dispatch.
+
+(* The flat offsets written (regenerated _handle_negative_indices / _convert_from_2d arithmetic called with
+   lengths=self.lengths, starts=self.starts, starts regenerated from the property in effect) are the model's
+   start_of ls r + c, defined on exactly the cells the model accepts. *)
+Theorem c06_gen_flat_offset_is_model_offset : forall (ls : list nat) (r c : Z),
+  gen_w_offset (zl ls) r c = option_map (fun rc => Z.of_nat (flat_of ls rc)) (cell ls (r, c)).
+Proof. exact gen_w_offset_spec. Qed.
+Print Assumptions c06_gen_flat_offset_is_model_offset.
+
+(* Every write, executed statement by statement as the current source orders them, is the model's step
+   (so all the round-1 theorems about step / run hold of the regenerated structure).  Side condition: an
+   append to an array without data is an append to an array without rows (every row non-empty). *)
+Theorem c06_gen_write_is_model_write : forall s o,
+  (forall vs, o = Append vs -> data s = [] -> lens s = [] /\ vs <> []) -> gen_step s o = step s o.
+Proof. exact gen_step_refines. Qed.
+Print Assumptions c06_gen_write_is_model_write.
+
+Theorem c06_gen_write_keeps_slots_coherent : forall s o s', Coh s -> gen_step s o = Ok s' ->
+  (forall vs, o = Append vs -> data s = [] -> lens s = [] /\ vs <> []) -> Coh s'.
+Proof. exact gen_step_coherent. Qed.
+Print Assumptions c06_gen_write_keeps_slots_coherent.
+
+(* append assigns every slot the class has (no cached attribute survives it) and rebuilds the row view last. *)
+Theorem c06_gen_append_resets_every_slot :
+  gen_slots = [SData; SArray; SLengths] /\
+  covers (path_writes gen_append_path) gen_slots = true /\
+  covers (path_writes gen_append_empty_path) gen_slots = true /\
+  append_resync gen_append_path = true /\ append_resync gen_append_empty_path = true.
+Proof. split; [exact gen_slots_are_the_three|exact gen_append_resets_every_slot]. Qed.
+Print Assumptions c06_gen_append_resets_every_slot.
+
+(* The constructor: copy defaults to True, under that default no branch (nor try/except fall-back) takes the flat
+   data from the caller without copying, and the regenerated branches are the model's two constructors. *)
+Theorem c06_gen_constructor_copies_by_default :
+  gen_ctor_copy_default = true /\
+  forallb (path_fresh gen_ctor_copy_default)
+    [gen_ctor_nested; gen_ctor_flat1; gen_ctor_given_rect; gen_ctor_given_ragged; gen_ctor_empty; gen_ctor_fallbacks] = true.
+Proof. exact gen_ctor_copies_by_default. Qed.
+Print Assumptions c06_gen_constructor_copies_by_default.
+
+Theorem c06_gen_constructor_is_model_constructor : forall (rs : list (list Z)) (d : list Z) (ls : list nat),
+  gen_of_rows rs = Ok (of_rows rs) /\ gen_of_flat d ls = of_flat d ls /\
+  exec_ctor gen_ctor_flat1 [] d [] blank = Ok (of_rows [d]).
+Proof. intros rs d ls. split; [apply gen_of_rows_spec|split; [apply gen_of_flat_spec|apply gen_one_row_spec]]. Qed.
+Print Assumptions c06_gen_constructor_is_model_constructor.
+
+(* map_operator / __invert__ map over the flat data of a NEW object with the same lengths; each of the 23
+   operator methods hands its own name to map_operator. *)
+Theorem c06_gen_operators_are_map_op : forall (f : Z -> Z) (s : st Z), Coh s ->
+  exec_opcall gen_map_operator_call f s = Ok (map_op f s) /\ exec_opcall gen_invert_call f s = Ok (map_op f s).
+Proof. exact (@gen_map_operator_spec Z Z). Qed.
+Print Assumptions c06_gen_operators_are_map_op.
+
+Theorem c06_gen_operators_return_new_objects :
+  oc_new_object gen_map_operator_call = true /\ oc_new_object gen_invert_call = true /\
+  oc_copy_arg gen_map_operator_call = None /\ oc_copy_arg gen_invert_call = None /\
+  optable_ok gen_operator_table = true /\ length gen_operator_table = 23.
+Proof. exact gen_operators_return_new_objects. Qed.
+Print Assumptions c06_gen_operators_return_new_objects.
+
+(* starts (the definition in effect, a function of lengths alone) and size (both definitions) are the model's. *)
+Theorem c06_gen_starts_is_model_starts : forall ls : list nat, ls <> [] -> gen_ops_starts (zl ls) = zl (starts ls).
+Proof. exact gen_ops_starts_spec. Qed.
+Print Assumptions c06_gen_starts_is_model_starts.
+
+Theorem c06_gen_size_is_data_length : forall s : st Z,
+  In gen_size_in_effect gen_size_defs /\ forall d, In d gen_size_defs -> den_size d s = length (data s).
+Proof. exact (@gen_size_spec Z). Qed.
+Print Assumptions c06_gen_size_is_data_length.
+
+(* Non-vacuity: the history of c06_example through the regenerated structure; a branch table that skips the rebuild
+   on 2-D slice assignment leaves the slots out of step on a rectangular array. *)
+Example c06_gen_example :
+  let s0 := of_rows [[0; 1; 2]; [3; 4]; [5; 6; 7; 8]]%Z in
+  let ops := [ Set2D (RSlice None None (Some (-1)%Z)) (CSlice None None (Some (-2)%Z)) (BCells (CVec [1; 2; 3; 4; 5]%Z));
+               SetRows (RSlice (Some 0%Z) None (Some 2%Z)) (RRows [[9; 9]; [7]]%Z);
+               AugMask [[true; false]; [false; true]; [true]] BMul 2%Z;
+               Append [[1; 1; 1]]%Z;
+               Set2D (RList [(-1)%Z]) (CInt 2%Z) (BCells (CScalar 0%Z)) ] in
+  let gen_apply s o := match gen_step s o with Ok s' => s' | Err _ => s end in
+  let bad k := match k with KSlSl => [WFlat] | _ => gen_setitem_path k end in
+  fold_left gen_apply ops s0 = of_rows [[18; 9]; [3; 6]; [14]; [1; 1; 0]]%Z /\
+  fold_left gen_apply ops s0 = run s0 ops /\
+  resync bad KSlSl = false /\
+  run_setitem bad (Set2D (RSlice None None None) (CSlice (Some 0%Z) (Some 1%Z) None) (BCells (CScalar 7%Z)))
+              (of_rows [[1; 2]; [3; 4]]%Z) = Ok (mkst [7; 2; 7; 4]%Z [[1; 2]; [3; 4]]%Z [2; 2]).
+Proof. vm_compute. repeat split; reflexivity. Qed.
+Print Assumptions c06_gen_example.
+
+(* Observe, append, observe again: starts is recomputed from the extended lengths (nothing cached survives the
+   append), the offsets read before the append are a prefix of those read after it, and the first appended row
+   starts where the old flat data ended. *)
+Theorem c06_starts_fresh_after_append : forall s vs s', Coh s -> step s (Append vs) = Ok s' ->
+  observe s' OStarts = VNats (starts (lens s ++ map (@length Z) vs)) /\
+  firstn (length (lens s)) (starts (lens s')) = starts (lens s) /\
+  nth (length (lens s)) (starts (lens s')) 0 = length (data s).
+Proof. exact starts_after_append. Qed.
+Print Assumptions c06_starts_fresh_after_append.
